@@ -20,21 +20,22 @@ type Config struct {
 	// PluginSrc generates plugin sources; nil means plug.Gen (documented forms).
 	PluginSrc func(t *rapid.T) string
 
-	Anchors      bool // aliases and << merges
-	Timestamps   bool // timestamp scalars at Any positions
-	BigNums      bool // integers beyond 2^53 (and above MaxInt64) at Any positions
-	Floats       bool // floats
-	BigMaps      bool // bias towards maps with more than 8 entries
-	BigMapOneIn  int  // with BigMaps: one map in N is big (default 6)
-	EmptyKey     bool // "" as an unknown key
-	MergeKeyStr  bool // the string "<<" as a (quoted) mapping key
-	EmptyMatrix  bool // matrix: [] / setup: [] / matrix: {} forms
-	UnknownSteps bool // unknown scalar and mapping steps
-	Signature    bool // steps may carry a signature block
-	BothCommands bool // allow command + commands together
-	MaxSteps     int  // default 5
-	MaxDepth     int  // group nesting, default 3
-	OnlyCommand  bool // only command steps (and groups of them)
+	Anchors       bool // aliases and << merges
+	Timestamps    bool // timestamp scalars at Any positions
+	BigNums       bool // integers beyond 2^53 (and above MaxInt64) at Any positions
+	Floats        bool // floats
+	BigMaps       bool // bias towards maps with more than 8 entries
+	BigMapOneIn   int  // with BigMaps: one map in N is big (default 6)
+	EmptyKey      bool // "" as an unknown key
+	MergeKeyStr   bool // the string "<<" as a (quoted) mapping key
+	EmptyMatrix   bool // matrix: [] / setup: [] / matrix: {} forms
+	UnknownSteps  bool // unknown scalar and mapping steps
+	Signature     bool // steps may carry a signature block
+	BothCommands  bool // allow command + commands together
+	MaxSteps      int  // default 5
+	MaxDepth      int  // group nesting, default 3
+	OnlyCommand   bool // only command steps (and groups of them)
+	NoPipelineEnv bool // never emit a top-level env block
 }
 
 // G is one document generation run.
@@ -62,8 +63,10 @@ func NewG(t *rapid.T, c Config) *G {
 func (g *G) feat(f string) { g.Feat[f]++ }
 
 func (g *G) intn(label string, lo, hi int) int { return rapid.IntRange(lo, hi).Draw(g.T, label) }
-func (g *G) coin(label string, oneIn int) bool  { return rapid.IntRange(0, oneIn-1).Draw(g.T, label) == 0 }
-func pick[T any](g *G, label string, xs []T) T   { return rapid.SampledFrom(xs).Draw(g.T, label) }
+func (g *G) coin(label string, oneIn int) bool {
+	return rapid.IntRange(0, oneIn-1).Draw(g.T, label) == 0
+}
+func pick[T any](g *G, label string, xs []T) T { return rapid.SampledFrom(xs).Draw(g.T, label) }
 
 func (g *G) s(role string) string {
 	if g.C.Str != nil {
@@ -488,7 +491,7 @@ func (g *G) Pipeline() *yaml.Node {
 		}
 		return g.steps(0, stepsForm != 1)
 	}})
-	if g.coin("env?", 2) {
+	if !g.C.NoPipelineEnv && g.coin("env?", 2) {
 		rest = append(rest, ent{key: "env", gen: func() *yaml.Node { return g.envBlock("env", true) }})
 	}
 	rest = append(rest, g.extras(used, set("steps", "env"), g.mapSize("topextras", 3))...)
